@@ -755,7 +755,9 @@ static void rates_case(Ctx& ctx, int Pu, int Qu, int len) {
     const Ov ovs[] = {{"resample(x,p,q)", 3, 0, 0, nullptr}, {"resample(x,p,q,8,7.0)", 1, 8, 7.0, nullptr}, {"resample(x,p,q,h) designed h", 2, 0, 0, &hd},
                       {"resample(x,p,q,h) dense h", 2, 0, 0, &hs}};
     for (const auto& ov : ovs) {
-        const P det = P().kv("overload", ov.name);
+        // nxp = ceil(len/q')*q' * p' : the product the length computation forms (>= 2^31 does not fit an int)
+        const long long nxp = (long long)(((long long)len + M - 1) / M) * M * L;
+        const P det = P().kv("overload", ov.name).kv("nxp", nxp).kv("nxp_unreduced", (long long)(((long long)len + Qu - 1) / Qu) * Qu * Pu);
         arr_real yu, yr;
         std::string eu, er;
         bool oku, okr;
@@ -1061,14 +1063,17 @@ int main(int argc, char** argv) {
             for (auto a : {std::array<int, 2>{192000, 44100}, std::array<int, 2>{44100, 192000}, std::array<int, 2>{32000, 48000}, std::array<int, 2>{11025, 48000},
                            std::array<int, 2>{2000000, 3000000}, std::array<int, 2>{65536, 65535}})
                 rates.push_back(a);
+            rates.push_back({441, 160});   // reduced ratio, only with the very long input below (110 s of 44.1 kHz audio)
             for (int l : {1, 22369, 22370, 32768, 65536, 131072, 200000}) lens.push_back(l);
         }
         for (auto& r : rates)
             for (int len : lens) {
                 // 65536/65535 is already reduced (L = 65536): polyphase tables of 2^16 branches, short inputs only
                 if (r[0] == 65536 && len > 1000) continue;
-                if (!ctx.take("resample.rates", P().kv("p", r[0]).kv("q", r[1]).kv("len", len))) continue;
-                rates_case(ctx, r[0], r[1], len);
+                if (r[0] == 441 && len != 1) continue;
+                const int ln = (r[0] == 441) ? 4870000 : len;   // ceil(len/160)*160*441 >= 2^31
+                if (!ctx.take("resample.rates", P().kv("p", r[0]).kv("q", r[1]).kv("len", ln))) continue;
+                rates_case(ctx, r[0], r[1], ln);
             }
     }
 
